@@ -276,7 +276,7 @@ func genExp(r *rand.Rand, id, maxLines, maxLen int) *Exp {
 			continue
 		}
 		ln := lines[i]
-		sep := indexByte(ln, ' ') // 0-based
+		sep := indexByte(ln, ' ')        // 0-based
 		hexLo, hexHi := sep+2, len(ln)-1 // 1-based positions of the hex part
 		g := &e.Segs[i]
 		switch r.Intn(9) {
